@@ -579,6 +579,13 @@ theorem runOKG_of_cleanRun (ignore : Bool) (ops : List Op) (hops : ∀ op ∈ op
     · simp only [Ref.opEventsG, hop.unbatched, and_self, if_true]
       exact ih (fun o ho => hops o (List.mem_cons_of_mem _ ho)) _ hc.2
 
+/-- with skipping off an error can only be the last event of the reference run -/
+theorem chainEventsG_false_errLast (ops : List Op) (src : List (Ev Val)) :
+    ErrLast (Ref.chainEventsG false ops src) := by
+  induction ops generalizing src with
+  | nil => exact cutTerminal_false_errLast src
+  | cons op ops ih => exact ih _
+
 /-! ## the Boolean side conditions (driver, non-vacuity examples) are sound -/
 
 theorem rectB_sound (nc : Nat) (vs : List (List Val)) (h : Ref.rectB nc vs = true) :
